@@ -17,6 +17,10 @@ CONSTANTS
   CVB <- AllVC
   CPairs <- PairsSix
   COps <- COpsFull
+  OffPairs <- OffPairsFull
+  OffVC <- AllVC
+  RPairs <- RealPairsFull
+  RRoutes <- AllCopyRoutes
 INIT Init
 NEXT Next
 INVARIANT Export
